@@ -290,3 +290,6 @@ ZOO += [
     ('R4-negative-noise-enabled', 'C14', 'inertial_sensor.py', "            if noise[axis] > 0:", "            if noise[axis] != 0:"),
     ('R4-resample-allclose', 'C18', 'transform.py', "    times = times[(times >= state.index[0]) & (times <= state.index[-1])]\n", "    times = times[(times >= state.index[0]) & (times <= state.index[-1])]\n    if len(times) == len(state) and np.allclose(times, state.index):\n        return state.set_axis(pd.Index(times)).astype(float)\n"),
 ]
+ZOO += [
+    ('R4-Qd-normalisation-revert', 'C08', 'kalman.py', "    H[:n, n:] = np.asarray(Q) / scale\n", "    H[:n, n:] = np.asarray(Q) / scale * scale\n    scale = 1.0\n"),
+]
